@@ -12,8 +12,8 @@ const START: &str = "2g
 8| e m h h         |
 7|             d d |
 6| c     x     x   |
-5|               r |
-4| R               |
+5|       d       r |
+4| R     H         |
 3| C     x     x   |
 2|             D D |
 1| E M H H         |
@@ -123,6 +123,71 @@ fn play(turns: usize) -> (GameState, usize) {
     (s, offered_checked)
 }
 
+/// Every query, on every state of the turn tree below `s` (all first steps, then a deterministic
+/// sample per depth, always keeping the states in the middle of a push): the operations whose cost
+/// or depth could depend on the length of the history are exercised at step 0..3, with and without
+/// a pending push or pull, and on the states after a pass / fourth step.
+fn sweep(s: &GameState) -> (usize, usize, usize) {
+    let mut frontier = vec![s.clone()];
+    let mut visited = 0usize;
+    let mut mid_push = 0usize;
+    let mut step3 = 0usize;
+    let mut lcg = 0x2545F4914F6CDD1Du64;
+    for _depth in 0..5 {
+        let mut next: Vec<GameState> = vec![];
+        for st in &frontier {
+            visited += 1;
+            let va = st.valid_actions();
+            let vanr = st.valid_actions_no_rep();
+            let _ = st.is_terminal();
+            let _ = st.can_pass(true);
+            let _ = st.can_pass(false);
+            let _ = st.has_move(st.piece_board());
+            let _ = st.transposition_hash();
+            let _ = format!("{}", st).len();
+            if let Some(pp) = st.as_play_phase() {
+                for i in 0..=pp.step() {
+                    let _ = st.piece_board_for_step(i).all_pieces;
+                }
+                if matches!(pp.push_pull_state(), PushPullState::MustCompletePush(_, _)) {
+                    mid_push += 1;
+                }
+                if pp.step() == 3 {
+                    step3 += 1;
+                }
+                let _ = pp.hash_history().len();
+            }
+            for a in &va {
+                let _ = st.trapped_animal_for_action(a);
+            }
+            let c = st.clone();
+            drop(c);
+            for a in &vanr {
+                let n = st.take_action(a);
+                let keep_always = n.as_play_phase().map_or(false, |pp| matches!(pp.push_pull_state(), PushPullState::MustCompletePush(_, _)));
+                lcg = lcg.wrapping_mul(6364136223846793005).wrapping_add(1442695040888963407);
+                if keep_always || next.len() < 24 || (lcg >> 33) % 8 == 0 {
+                    next.push(n);
+                }
+            }
+        }
+        if next.len() > 60 {
+            // keep the mid-push states and a spread of the rest
+            let (mut a, b): (Vec<GameState>, Vec<GameState>) =
+                next.into_iter().partition(|n| n.as_play_phase().map_or(false, |pp| matches!(pp.push_pull_state(), PushPullState::MustCompletePush(_, _))));
+            a.truncate(30);
+            let stride = (b.len() / 30).max(1);
+            a.extend(b.into_iter().step_by(stride).take(30));
+            next = a;
+        }
+        frontier = next;
+        if frontier.is_empty() {
+            break;
+        }
+    }
+    (visited, mid_push, step3)
+}
+
 static LO: AtomicUsize = AtomicUsize::new(usize::MAX);
 static HI: AtomicUsize = AtomicUsize::new(0);
 
@@ -208,13 +273,14 @@ fn main() {
             let h = c.transposition_hash();
             drop(c);
             let shown = format!("{}", s).len();
+            let sw = sweep(&s);
             drop(s);
-            (hist, va, term, h, shown, checked)
+            (hist, va, term, h, shown, checked, sw)
         })
         .unwrap();
-    let (hist, va, term, hash, shown, checked) = h.join().expect("game thread");
+    let (hist, va, term, hash, shown, checked, sw) = h.join().expect("game thread");
     println!(
-        "{{\"turns\": {}, \"history_len\": {}, \"valid_actions\": {}, \"terminal\": {}, \"hash\": \"{:016x}\", \"printed_len\": {}, \"offered_checks\": {}}}",
-        turns, hist, va, term, hash, shown, checked
+        "{{\"turns\": {}, \"history_len\": {}, \"valid_actions\": {}, \"terminal\": {}, \"hash\": \"{:016x}\", \"printed_len\": {}, \"offered_checks\": {}, \"swept_states\": {}, \"swept_mid_push\": {}, \"swept_step3\": {}}}",
+        turns, hist, va, term, hash, shown, checked, sw.0, sw.1, sw.2
     );
 }
